@@ -160,3 +160,96 @@ func vfH_C11_ack() {
 	}
 	vfReach("end")
 }
+
+// C11_value: an ack-required lock that carries a value operation, granted at once or
+// from the wait queue (LockDB.Lock ack branch / wakeUpWaitLock ack branch).  If the
+// acknowledgement fails (negative follower ack, ack wait timeout) the value change is
+// undone: the key's value and what the next holder is shown are the value from before.
+// If it succeeds the value is the operation's result and the SUCCED reply carries the
+// value from before the operation.
+func init() { vfHarnesses["C11_value"] = vfH_C11_value }
+
+func vfH_C11_value() {
+	vfWithProps = false
+	dir := vfFSDir()
+	env := vfNewEnv(3)
+	vfSetDBTime(env.db, vfBaseTime)
+	vfOpenAof(env, dir)
+	Config.AofAckMode = 0
+	rm := env.slock.replicationManager
+	rm.serverChannels = append(rm.serverChannels, nil) // one follower: leader flush + one acknowledgement
+	key := vfKey(1)
+	cur := vfValue{kind: vfVNone}
+	fromQueue := vfBool("fromQueue")
+	if fromQueue {
+		a := env.newCmd(protocol.COMMAND_LOCK, key, vfLockId(9))
+		a.Flag, a.Expried, a.ExpriedFlag = protocol.LOCK_FLAG_CONTAINS_DATA, 50, 0x0200
+		d0, v0 := vfNextOp(0, cur)
+		a.Data = d0
+		n := len(env.replies)
+		env.lock(0, a)
+		vfAssume(len(env.replies) == n+1 && env.replies[n].result == protocol.RESULT_SUCCED)
+		cur = v0
+	}
+	b := env.newCmd(protocol.COMMAND_LOCK, key, vfLockId(1))
+	b.Flag, b.TimeoutFlag = protocol.LOCK_FLAG_CONTAINS_DATA, protocol.TIMEOUT_FLAG_REQUIRE_ACKED
+	b.Timeout, b.Expried = 5, 20
+	d1, v1 := vfNextOp(1, cur)
+	b.Data = d1
+	breq := b.RequestId
+	env.lock(1, b)
+	c := env.newCmd(protocol.COMMAND_LOCK, key, vfLockId(2))
+	c.Timeout, c.Expried, c.ExpriedFlag = 60, 20, 0x0200
+	creq := c.RequestId
+	env.lock(2, c)
+	if fromQueue {
+		u := env.newCmd(protocol.COMMAND_UNLOCK, key, vfLockId(9))
+		env.unlock(0, u)
+		vfReach("granted-from-queue")
+	}
+	vfDrainAof(env.db)
+	vfAssert(len(env.repliesFor(breq)) == 0, "C11: an ack-required lock was answered before anything was acknowledged")
+	ackdb := rm.GetAckDB(0)
+	vfAssert(ackdb != nil, "C11: no ack DB after pushing an ack-required record")
+	aofId, registered := ackdb.commandAofs[0][breq]
+	vfAssert(registered, "C11: the ack-required record was not registered for acknowledgement")
+	shown := func(r vfReply) []byte {
+		if r.hasData {
+			return r.data
+		}
+		return nil
+	}
+	switch vfChoice("outcome", 3) {
+	case 0:
+		env.slock.aof.Flush()
+		vfDrainAof(env.db)
+		_ = env.slock.aof.loadLockAck(vfAckFrame(b, aofId, protocol.RESULT_SUCCED))
+		vfDrainAof(env.db)
+		rs := env.repliesFor(breq)
+		vfAssert(len(rs) == 1 && rs[0].result == protocol.RESULT_SUCCED, "C11: flush + acknowledgement did not produce exactly one SUCCED")
+		vfAssert(vfDecodeMatches(shown(rs[0]), cur), "C11: the SUCCED reply of an ack-required lock does not carry the value from before its operation")
+		vfAssert(vfDecodeMatches(env.manager(key).GetLockData(), v1), "C11: after a successful acknowledgement the stored value is not the operation's result")
+		vfReach("succed")
+	case 1:
+		_ = env.slock.aof.loadLockAck(vfAckFrame(b, aofId, protocol.RESULT_ERROR))
+		vfDrainAof(env.db)
+		vfC11RolledBack(env, key, breq, creq, cur, shown)
+		vfReach("nack")
+	default:
+		vfTick(env, 7)
+		vfC11RolledBack(env, key, breq, creq, cur, shown)
+		vfReach("ack-timeout")
+	}
+	vfReach("end")
+}
+
+func vfC11RolledBack(env *vfEnv, key [16]byte, breq, creq [16]byte, before vfValue, shown func(vfReply) []byte) {
+	rs := env.repliesFor(breq)
+	vfAssert(len(rs) == 1 && rs[0].result != protocol.RESULT_SUCCED, "C11: a failed acknowledgement did not produce exactly one error reply")
+	cs := env.repliesFor(creq)
+	vfAssert(len(cs) == 1 && cs[0].result == protocol.RESULT_SUCCED, "C11: the queued request was not served after the ack-required lock was rolled back")
+	m := env.manager(key)
+	vfAssert(m != nil, "C11: key vanished although the next request holds it")
+	vfAssert(vfDecodeMatches(m.GetLockData(), before), "C11: the value change of a failed ack-required lock was not undone")
+	vfAssert(vfDecodeMatches(shown(cs[0]), before), "C11: the next holder was shown a value that is not the one from before the failed lock")
+}
